@@ -4,13 +4,20 @@
    dev tiff|json
    file <path-hex> <hex | ->                 (a file that already exists, with these contents)
    fix <d6> <d25> <d26>                      (optional, default 1 1 1 = the repaired code)
+   sw <e> <e> ...                            (optional: the short-write script, one answer per pwrite call of this case
+                                              in call order, calls beyond it transfer everything:
+                                              f = everything | b<c> = at most c bytes (b0 = the zero-length result) |
+                                              m<c> = all but c, at least 1 | h = half, rounded up | p<k> = k/256, at least 1)
    set <uri-hex> <md: - | e | hex> <sx_p> <sx_q> <sy_p> <sy_q> [ignored...]
    start
    append <k>          followed by k lines
    frame <w> <h> <type> <frame_id> <hw_frame_id> <ts_hw> <ts_acq> <data-hex | ->
    stop
    snap <k> <path-hex> [<dst-hex>]           (dump the current contents of one file, tagged k)
-   end                                       (destroy; dump the files and what TiffDec.decode reads in them)
+   end                                       (destroy; dump the files and what TiffDec.decode reads in them; then
+                                              "pwrites <n> <offset>:<requested>:<returned> ..." = the log of the pwrite calls, and
+                                              "iofail" if some file_write gave up = the script exceeds the loop's zero-count budget)
+   Every write goes through TiffSw.file_write (the write-all loop of linux/platform.c) against the script.
 *)
 open Tiffmodel
 
@@ -77,19 +84,32 @@ let dump_file tag name content =
     let n = String.length hk in
     if n >= 8 && String.sub hk (n - 8) 8 = "2e746966" (* .tif *) then print_dec tag name v
 
+let sw_of_string s =
+  let arg () = n_of_string (String.sub s 1 (String.length s - 1)) in
+  match s.[0] with
+  | 'f' -> SwFull
+  | 'b' -> SwBytes (arg ())
+  | 'm' -> SwAllBut (arg ())
+  | 'h' -> SwHalf
+  | 'p' -> SwFrac (arg ())
+  | _ -> failwith ("bad short-write entry " ^ s)
+
 let () =
   let w = ref (dev_init false, []) in
   let fx = ref all_fixes in
+  let os = ref (os_init []) in
+  let io_ok = ref true in
   let op name o =
-    let (w', ok) = step !fx !w o in
-    w := w';
+    let (((w', ok), iook), os') = step_sw !fx !w !os o in
+    w := w'; os := os'; io_ok := !io_ok && iook;
     Printf.printf "%s ok=%d state=%s\n" name (if ok then 1 else 0) (state_name (dstate (fst w'))) in
   (try
      while true do
        let line = input_line stdin in
        match words line with
        | [] -> ()
-       | ["case"; id] -> w := (dev_init false, []); fx := all_fixes; Printf.printf "case %s\n" id
+       | ["case"; id] -> w := (dev_init false, []); fx := all_fixes; os := os_init []; io_ok := true; Printf.printf "case %s\n" id
+       | "sw" :: es -> os := os_init (List.map sw_of_string es)
        | ["dev"; k] -> w := (dev_init (k = "json"), snd !w)
        | ["file"; path; data] ->
          (* a file that exists before the device is used (left by an earlier acquisition / another process) *)
@@ -113,9 +133,15 @@ let () =
              | _ -> failwith "frame line expected") in
          op "append" (OAppend frs)
        | ["end"] ->
-         w := destroy !w;
+         let ((w', iook), os') = destroy_sw !w !os in
+         w := w'; os := os'; io_ok := !io_ok && iook;
          let files = List.sort compare (List.map (fun (k, v) -> (hex_of_bytes k, k, v)) (snd !w)) in
          List.iter (fun (_, k, v) -> dump_file "end" k (Some v)) files;
+         let log = List.rev !os.os_log in
+         Printf.printf "pwrites %d" (List.length log);
+         List.iter (fun ((o, rq), rt) -> Printf.printf " %s:%s:%s" (string_of_n o) (string_of_n rq) (string_of_n rt)) log;
+         print_newline ();
+         if not !io_ok then print_string "iofail\n";
          print_string "endcase\n"
        | "snap" :: k :: path :: _ ->
          let name = bytes_of_hex path in
